@@ -55,3 +55,66 @@ class _l3:
 
     def ensures_bounds(d):
         return -24 <= S.imps(d) <= 24
+
+
+# ---- C07 ---------------------------------------------------------------------------------------
+from bridge_env import Bid, Contract, Player, Suit, Vul
+from pyvc.dsl import Obj, Opt
+import spec.table as G
+
+KIND = {Suit.C: 0, Suit.D: 0, Suit.H: 1, Suit.S: 1, Suit.NT: 2}
+
+ContractS = Obj(Contract, dict(final_bid=Opt(Enum(Bid)), x=Bool(), xx=Bool(), vul=Enum(Vul),
+                               declarer=Opt(Enum(Player))), frozen=True)
+
+
+def valid_contract(c):
+    return c.final_bid is not Bid.X and c.final_bid is not Bid.XX
+
+
+def passed_out(c):
+    return c.final_bid is None or c.final_bid is Bid.Pass
+
+
+@contract('bridge_env.score.calc_bid_score', props=['C07'])
+class _cbs:
+    params = dict(bid=Enum(Bid), x=Bool(), xx=Bool(), vul=Bool(), taken_trick_num=Int(0, 13))
+    returns = Int()
+    raises = {ValueError: 'iff'}
+
+    def raises_ValueError(bid):
+        return not G.is_bid(bid)
+
+    def ensures_duplicate_score(bid, x, xx, vul, taken_trick_num, result):
+        return result == S.dup_score(G.level(bid), KIND[G.denom(bid)], S.status(x, xx), vul,
+                                     taken_trick_num)
+
+
+@contract('bridge_env.score.calc_score', props=['C07', 'C08'])
+class _cs:
+    params = dict(contract=ContractS, taken_tricks=Int(0, 13))
+    returns = Int()
+    raises = {ValueError: 'iff'}
+
+    def requires_valid(contract):
+        return valid_contract(contract)
+
+    def raises_ValueError(contract):
+        return (not passed_out(contract)) and contract.declarer is None and \
+            (contract.vul is Vul.NS or contract.vul is Vul.EW)
+
+    def ensures_passed_out_zero(contract, result):
+        return implies(passed_out(contract), result == 0)
+
+    def ensures_declarer_side_score(contract, taken_tricks, result):
+        return True if (passed_out(contract) or contract.declarer is None) else \
+            result == S.dup_score(G.level(contract.final_bid), KIND[G.denom(contract.final_bid)],
+                                  S.status(contract.x, contract.xx),
+                                  G.side_vulnerable(G.side(contract.declarer), contract.vul),
+                                  taken_tricks)
+
+    def ensures_no_declarer_needed_when_all_or_none(contract, taken_tricks, result):
+        return True if (passed_out(contract) or contract.declarer is not None) else \
+            result == S.dup_score(G.level(contract.final_bid), KIND[G.denom(contract.final_bid)],
+                                  S.status(contract.x, contract.xx), contract.vul is Vul.BOTH,
+                                  taken_tricks)
